@@ -2,7 +2,7 @@
 Driver handler of the `response` stream (C15).
 
   (resp <id> (set <pretty 0|1> <n|j|x>) (coding 0|1) (ops <op>…) (obs <obs>…) (final <status> <length>)?)
-  op  := (pp b) | (acc n|j|x) | (wh s) | (w n) | (wes s n) | (we s <errIsNil 0|1> n) | (wse s ent) | (whe s ent)
+  op  := (pp b) | (acc n|j|x) | (hd …) | (wh s) | (w n) | (wes s n) | (we s <errIsNil 0|1> n) | (wse s ent) | (whe s ent)
        | (wen ent) | (waj ent) | (wax ent) | (wj ent) | (whj s ent) | (whx s ent)
   ent := nil | (v <pj n|fail> <px n|fail> (ej <fails 0|1> chunk…) (ex <fails 0|1> chunk…) (exm <masked 0|1>…)?)
   obs := (c <StatusCode()> <ContentLength()> <ret> <Error()!=nil 0|1> ev…)     one per op, in order
@@ -63,6 +63,7 @@ def decEnt : SExp → Option Marshalled
 def decCall : SExp → Option Call
   | .list [.atom "pp", b] => do pure (.prettyPrint (← asBool b))
   | .list [.atom "acc", a] => do pure (.setAccept (← decAccessor a))
+  | .list (.atom "hd" :: _) => some .setHeader
   | .list [.atom "wh", s] => do pure (.writeHeader (← asNat s))
   | .list [.atom "w", n] => do pure (.write (← asNat n))
   | .list [.atom "wes", s, n] => do pure (.writeErrorString (← asNat s) (← asNat n))
